@@ -85,7 +85,7 @@ def strategy(tier):
   order = st.tuples(st.sampled_from([0, 1, 1, 2, 2, 3, 4, 5, 6]), st.lists(ocol, min_size=1, max_size=2)).map(list)
   pn = st.tuples(st.integers(0, 2), st.sampled_from([0, 0, 1, 2, 3, 4, 5]), order, st.integers(0, 2)).map(list)
   fd = st.tuples(st.sampled_from([0, 1, 2, 3, 4]), st.sampled_from([0, 1, 2, 3]), order, st.integers(0, 1), sel, st.booleans(),
-                 st.sampled_from([0, 0, 0, 1])).map(list)
+                 st.sampled_from([0, 0, 0, 1]), st.sampled_from([0, 0, 0, 1, 2])).map(list)
   op = st.tuples(st.sampled_from(list(range(9))), sel, sel, sel, st.lists(sel, min_size=0, max_size=6)).map(list)
   return st.fixed_dictionaries({
     'mixed': st.sampled_from([0, 0, 1]),
@@ -172,10 +172,12 @@ def build_find(spec, mixed):
     args.append("G='g'"); key = ['const', 'g']
   args.append(otext)
   attr = '_find' if g(spec, 5, False) is True else 'find'
+  via = [None, 'Any', 'RefList:Src'][gi(spec, 7) % 3]      # search a record set stored in another column
   labels = ['find:' + op, olabel, 'find-values:%d/%d' % (nvals, len(cols)), 'find-key:' + ('none' if key is None else key[0]),
-            'probe-src:' + ('const' if const else 'per-row')]
-  return dict(formula='Src.lookupRecords(%s).%s.%s(%s)' % (', '.join(args), attr, op, ', '.join(texts)),
-              op=op, key=key, order=order, vals=vals, labels=labels)
+            'probe-src:' + ('const' if const else 'per-row'), 'find-on:' + (via or 'lookup-expression')]
+  lookup = 'Src.lookupRecords(%s)' % ', '.join(args)
+  return dict(formula='%s.%s.%s(%s)' % ('$S' if via else lookup, attr, op, ', '.join(texts)),
+              via=via, lookup=lookup, op=op, key=key, order=order, vals=vals, labels=labels)
 
 
 def row_values(cls, x):
@@ -370,12 +372,34 @@ class Checker(object):
 
 def run_case(case):
   out = Outcome()
-  mixed = gi([g(case, 'mixed', 0)], 0) % 2 == 1
-  cls = 'mixed' if mixed else 'dup'
-  out.cls('class:' + ('mixed-type-sort-keys' if mixed else 'duplicate-sort-keys'))
-  rare_id = gi([g(case, 'rare', 1)], 0) % 40 == 39
-  pns = [build_pn(s, mixed, rare_id and i == 0) for i, s in enumerate((g(case, 'pn', []) or [])[:4]) if isinstance(s, list)]
-  finds = [build_find(s, mixed) for s in (g(case, 'find', []) or [])[:5] if isinstance(s, list)]
+  ex = case.get('explicit') if isinstance(case, dict) else None
+  if isinstance(ex, dict):
+    # stable witness form: formulas + their reference description + concrete data and user actions
+    out.cls('explicit-case')
+    pns = [dict(p, labels=[]) for p in ex.get('pn', [])]
+    finds = [dict(f, labels=[]) for f in ex.get('find', [])]
+    src_vals, probe_vals = ex.get('src', {}), ex.get('probe', {})
+    n_src = max([len(v) for v in src_vals.values()] + [0])
+    n_probe = max([len(v) for v in probe_vals.values()] + [0])
+    cls = None
+  else:
+    mixed = gi([g(case, 'mixed', 0)], 0) % 2 == 1
+    cls = 'mixed' if mixed else 'dup'
+    out.cls('class:' + ('mixed-type-sort-keys' if mixed else 'duplicate-sort-keys'))
+    rare_id = gi([g(case, 'rare', 1)], 0) % 40 == 39
+    pns = [build_pn(s, mixed, rare_id and i == 0) for i, s in enumerate((g(case, 'pn', []) or [])[:4]) if isinstance(s, list)]
+    finds = [build_find(s, mixed) for s in (g(case, 'find', []) or [])[:5] if isinstance(s, list)]
+    rows = [x for x in (g(case, 'rows', []) or [])[:8] if isinstance(x, list)]
+    src_vals = {c: [] for c, _ in SRC_DATA}
+    for x in rows:
+      rv = row_values(cls, x)
+      for c in src_vals:
+        src_vals[c].append(rv[c])
+    src_vals['manualSort'] = [pick(MS_POOL, gi(x, 5)) for x in rows]
+    n_src = len(rows)
+    prows = [x for x in (g(case, 'prows', []) or [])[:4] if isinstance(x, list)] or [[0, 0, 0, 0]]
+    probe_vals = {c: [pick(PPOOL[cls][c], gi(x, i)) for x in prows] for i, (c, _t) in enumerate(PROBE_DATA)}
+    n_probe = len(prows)
   if not pns and not finds:
     out['skipped'] = True
     return out
@@ -385,35 +409,35 @@ def run_case(case):
                 [{'id': 'Q%d' % i, 'type': 'Any', 'isFormula': True, 'formula': pn['formula']} for i, pn in enumerate(pns)]]])
   if not r.ok:
     raise RuntimeError('setup failed: %r' % (r.error,))
-  rows = [x for x in (g(case, 'rows', []) or [])[:8] if isinstance(x, list)]
-  if rows:
-    vals = {c: [] for c, _ in SRC_DATA}
-    for x in rows:
-      rv = row_values(cls, x)
-      for c in vals:
-        vals[c].append(rv[c])
-    vals['manualSort'] = [pick(MS_POOL, gi(x, 5)) for x in rows]
-    r = d.apply([['BulkAddRecord', 'Src', [None] * len(rows), vals]])
+  if n_src:
+    r = d.apply([['BulkAddRecord', 'Src', [None] * n_src, src_vals]])
     if not r.ok:
       raise RuntimeError('adding rows failed: %r' % (r.error,))
-  prows = [x for x in (g(case, 'prows', []) or [])[:4] if isinstance(x, list)] or [[0, 0, 0, 0]]
-  pvals = {c: [pick(PPOOL[cls][c], gi(x, i)) for x in prows] for i, (c, _t) in enumerate(PROBE_DATA)}
-  r = d.apply([['AddTable', 'Probe', [{'id': c, 'type': t, 'isFormula': False} for c, t in PROBE_DATA] +
-                [{'id': 'VA', 'type': 'Any', 'isFormula': True, 'formula': '$VM'}] +
-                [{'id': 'F%d' % i, 'type': 'Any', 'isFormula': True, 'formula': fd['formula']} for i, fd in enumerate(finds)]],
-               ['BulkAddRecord', 'Probe', [None] * len(prows), pvals]])
+  acts = [['AddTable', 'Probe', [{'id': c, 'type': t, 'isFormula': False} for c, t in PROBE_DATA] +
+           [{'id': 'VA', 'type': 'Any', 'isFormula': True, 'formula': '$VM'}] +
+           [{'id': 'S%d' % i, 'type': fd['via'], 'isFormula': True, 'formula': fd['lookup']}
+            for i, fd in enumerate(finds) if fd.get('via')] +
+           [{'id': 'F%d' % i, 'type': 'Any', 'isFormula': True, 'formula': fd['formula'].replace('$S.', '$S%d.' % i)}
+            for i, fd in enumerate(finds)]]]
+  if n_probe:
+    acts.append(['BulkAddRecord', 'Probe', [None] * n_probe, probe_vals])
+  r = d.apply(acts)
   if not r.ok:
     raise RuntimeError('probe table failed: %r' % (r.error,))
   for x in pns + finds:
     out.cls(*x['labels'])
   ck = Checker(d, pns, finds, out)
   failed = ck.check('initial')
-  for bundle in (g(case, 'edits', []) or [])[:5]:
+  bundles = ex.get('edits', []) if isinstance(ex, dict) else (g(case, 'edits', []) or [])[:5]
+  for bundle in bundles:
     if failed:
       break
     if not isinstance(bundle, list):
       continue
-    uas, kinds = resolve_edits(d, [op for op in bundle if isinstance(op, list)], cls)
+    if isinstance(ex, dict):
+      uas, kinds = bundle, ['explicit']
+    else:
+      uas, kinds = resolve_edits(d, [op for op in bundle if isinstance(op, list)], cls)
     if not uas:
       continue
     r = d.apply(uas)
